@@ -256,9 +256,15 @@ EDITS = [("split13", ed_split13, 3), ("edge_split", ed_edge_split, 3), ("flip", 
          ("delete", ed_delete, 4), ("ear", ed_ear, 4), ("isolated", ed_isolated, 1)]
 
 
-def finalize(rng, nv, faces):
-    perm = list(range(nv))
-    rng.shuffle(perm)
+def finalize(rng, nv, faces, spread=False):
+    if spread:
+        # vertex ids beyond 256 (small-int identity vs equality), many isolated vertices in between
+        nv2 = rng.randint(max(nv, 300), max(nv, 300) + 120)
+        perm = rng.sample(range(nv2), nv)
+        nv = nv2
+    else:
+        perm = list(range(nv))
+        rng.shuffle(perm)
     out = []
     for F in faces:
         G = [perm[v] for v in F]
@@ -309,9 +315,10 @@ def gen_mesh(rng, size=None, max_faces=80):
             continue
         nv, faces = nv2, [list(F) for F in f2]
         applied.append(nm)
-    nv, faces = finalize(rng, nv, faces)
+    spread = rng.random() < 0.1
+    nv, faces = finalize(rng, nv, faces, spread)
     assert validate(nv, faces) is None
-    return {"nv": nv, "faces": faces}, {"seed_kind": kind, "size": size, "edits": applied}
+    return {"nv": nv, "faces": faces}, {"seed_kind": kind, "size": size, "edits": applied, "spread": spread}
 
 
 # ---------------------------------------------------------------------- statistics of a mesh (for the evidence)
@@ -424,6 +431,9 @@ def gen_script(rng, mesh, length=None):
     for _ in range(length):
         q = rng.choices(names, weights)[0]
         sig = QUERIES[q]
+        if out and rng.random() < 0.1:
+            out.append(list(out[-1]))      # the same call again, immediately
+            continue
         if q in ABSENT and rng.random() < 0.06:
             out.append([q] + ABSENT[q]())
             continue
